@@ -18,7 +18,9 @@ import (
 	"verif/lib/bmgen"
 )
 
-func proc(prog string, n, m uint8) *procbuilder.Machine {
+func proc(prog string, n, m uint8) *procbuilder.Machine { return procRs(prog, n, m, 8) }
+
+func procRs(prog string, n, m uint8, rsize uint8) *procbuilder.Machine {
 	seen := map[string]bool{}
 	var ops []string
 	for _, l := range strings.Split(prog, "\n") {
@@ -27,7 +29,7 @@ func proc(prog string, n, m uint8) *procbuilder.Machine {
 			ops = append(ops, f[0])
 		}
 	}
-	mc, err := bmgen.NewMachine(bmgen.ArchSpec{Rsize: 8, R: 2, N: n, M: m, L: 1, O: 3, Ops: ops})
+	mc, err := bmgen.NewMachine(bmgen.ArchSpec{Rsize: rsize, R: 2, N: n, M: m, L: 1, O: 3, Ops: ops})
 	if err != nil {
 		panic(err)
 	}
@@ -70,6 +72,24 @@ func MachineB() *bondmachine.Bondmachine {
 	return b
 }
 
+// MachineC: MachineB with 12-bit registers. The simulator implements inc only for 8/16/32/64 bits: processor 0
+// fails in every tick (its Step returns an error) while processor 1 runs, so every tick has a failing and a
+// working processor worker.
+func MachineC() *bondmachine.Bondmachine {
+	b := new(bondmachine.Bondmachine)
+	b.Rsize = 12
+	b.Init()
+	b.Domains = append(b.Domains, procRs("inc r0\ninc r0\n", 0, 1, 12))
+	b.Domains = append(b.Domains, procRs("r2owa r1 o0\nr2owa r1 o0\n", 0, 1, 12))
+	b.Add_processor(0)
+	b.Add_processor(1)
+	b.Add_output()
+	b.Add_output()
+	b.Add_bond([]string{"o0", "p0o0"})
+	b.Add_bond([]string{"o1", "p1o0"})
+	return b
+}
+
 const basmSrc = `%section prog .romtext iomode:async
 	entry _start
 _start:
@@ -91,6 +111,7 @@ const (
 	// every output but the last (MachineB has two), `signed` is a registered type whose text export is not
 	// implemented, so SinglePipelineSimulate returns an error AFTER it started its workers
 	SpsBErr = "spsBerr"
+	SpsC    = "spsC" // MachineC.SinglePipelineSimulate: one of the two processors cannot execute its instruction
 )
 
 // EntryPoint names the /repo function a call kind exercises (signature component).
@@ -100,6 +121,8 @@ func EntryPoint(kind string) string {
 		return "SinglePipelineSimulate"
 	case SpsBErr:
 		return "SinglePipelineSimulate(error return)"
+	case SpsC:
+		return "SinglePipelineSimulate(failing processor)"
 	case FitA, FitB:
 		return "Fitness_default"
 	case Basm:
@@ -109,17 +132,20 @@ func EntryPoint(kind string) string {
 }
 
 // Env holds the (read-only) machines; they are inputs of the simulations, built once.
-type Env struct{ A, B *bondmachine.Bondmachine }
+type Env struct{ A, B, C *bondmachine.Bondmachine }
 
-func NewEnv() *Env { return &Env{A: MachineA(), B: MachineB()} }
+func NewEnv() *Env { return &Env{A: MachineA(), B: MachineB(), C: MachineC()} }
 
 // Call performs one single-shot call and returns a rendering of its result.
 func (e *Env) Call(kind string) string {
 	switch kind {
-	case SpsA, SpsB, SpsBErr:
+	case SpsA, SpsB, SpsBErr, SpsC:
 		bm := e.A
 		if kind != SpsA {
 			bm = e.B
+		}
+		if kind == SpsC {
+			bm = e.C
 		}
 		in := []string{"5"}
 		if bm.Inputs == 0 {
@@ -277,7 +303,7 @@ func Enumerate(maxN int) []History {
 			add(History{Callers: [][]string{rep(FitB, n)}})
 		}
 	}
-	for _, s := range [][]string{{SpsA, FitA}, {FitA, SpsA}, {SpsA, Basm}, {Basm, SpsA}, {SpsBErr, SpsA}, {SpsA, SpsBErr}} {
+	for _, s := range [][]string{{SpsA, FitA}, {FitA, SpsA}, {SpsA, Basm}, {Basm, SpsA}, {SpsBErr, SpsA}, {SpsA, SpsBErr}, {SpsC, SpsA}, {SpsA, SpsC}} {
 		add(History{Callers: [][]string{s[:1]}})
 		add(History{Callers: [][]string{s}})
 	}
